@@ -48,7 +48,8 @@ type Cell struct {
 	CfgKind   string `json:"ssh_config_kind,omitempty"` // ssh config file with hostile directives (see setup); overrides ssh_config
 	// seq cells: states of ONE known-hosts path at consecutive strict opens in one process
 	Steps []string `json:"steps,omitempty"`
-	Reuse bool     `json:"reuse_transport,omitempty"` // one Transport object for all opens (else a fresh one per open)
+	Reuse bool     `json:"reuse_transport,omitempty"` // seq: one Transport object for all opens (else a fresh one per open); retry: Transport.Close between the opens
+	Retry string   `json:"retry,omitempty"`           // retry cells: kh-none | kh | key (Steps = state of that file at Open #1 and at Open #2)
 }
 
 type userRec struct {
@@ -269,6 +270,24 @@ func resolveCheck(c Cell, args []string, ob *observed) (*mon.Result, bool) {
 	// and user with -p / -l, never the host). What ssh resolved is only recorded.
 	ob.ResolvedHost = first("hostname")
 	return nil, true
+}
+
+// resolveIdentity returns the identity files `ssh -G <args>` reports (nil = resolver unavailable).
+func resolveIdentity(args []string) []string {
+	if w.sshAt == "" {
+		return nil
+	}
+	out, err := exec.Command(w.sshAt, append([]string{"-G"}, args...)...).Output()
+	if err != nil {
+		return nil
+	}
+	ids := []string{}
+	for _, l := range strings.Split(string(out), "\n") {
+		if f := strings.Fields(l); len(f) >= 2 && f[0] == "identityfile" {
+			ids = append(ids, f[1])
+		}
+	}
+	return ids
 }
 
 // runDecoy: the driver is configured for port 22 (explicitly or by default) and an ssh config file
@@ -1066,6 +1085,32 @@ func gen(tier string, seed int64) []mon.Case {
 			}
 		}
 	}
+	// retry on ONE object after an Open that failed inside Transport.Open
+	for rep := 0; rep < reps; rep++ {
+		k := 0
+		addR := func(tr, retry string, steps []string, auth string, closeBetween bool) {
+			c := Cell{Kind: "retry", Transport: tr, Strict: true, KH: "retry", Auth: auth, User: (k + rep) % 2, Srv: k % 2, Rep: rep, ReadSize: 8192,
+				Retry: retry, Steps: steps, Reuse: closeBetween}
+			cs = append(cs, mon.MkCase(fmt.Sprintf("c14/r%d/z%02d-retry.%s.%s.%s.auth=%s.close=%v", rep, k, tr, retry, strings.Join(steps, ">"), auth, closeBetween), c))
+			k++
+		}
+		for _, cb := range []bool{false, true} {
+			for _, auth := range []string{"password", "key"} {
+				addR("standard", "kh-none", nil, auth, cb)
+				for _, st := range [][]string{{"garbled", "has"}, {"garbled", "other"}, {"garbled", "empty"}, {"garbled", "garbled"}, {"missing", "has"}, {"missing", "other"}, {"missing", "missing"}} {
+					addR("standard", "kh", st, auth, cb)
+				}
+			}
+			for _, tr := range []string{"standard", "system"} {
+				for _, auth := range []string{"key", "both"} {
+					for _, st := range [][]string{{"missing", "fixed"}, {"missing", "missing"}, {"garbled", "fixed"}, {"garbled", "garbled"}} {
+						addR(tr, "key", st, auth, cb)
+					}
+				}
+			}
+			addR("standard", "key", []string{"wrong", "fixed"}, "key", cb)
+		}
+	}
 	// the known-hosts file changes between opens (same path, one process)
 	for rep := 0; rep < reps; rep++ {
 		k := 0
@@ -1097,7 +1142,9 @@ func init() {
 			"unrelated CA or empty file (must fail), only the certified key as a plain entry (outcome not prescribed, recorded). Plus, per repetition: 224 stand-in cells whose argument list is resolved by the real client (`ssh -G`) under ssh config files with hostile directives " +
 			"(Port/User/HostName/IdentityFile/StrictHostKeyChecking/UserKnownHostsFile under Host *, Host <host>, Match) x port {server port, explicit 22, default 22}: every field the driver " +
 			"configured must survive; 16 port-22 decoy cells (config file names a port of one of our servers: nothing may connect there); 64 cells with the host given as the NAME localhost x known-hosts " +
-			"entry sets {name: right|wrong|none|hashed} x {ip: right|wrong|none|hashed} on both transports (connect iff the entry for the configured NAME matches). Plus 32 sequences per repetition in which ONE known-hosts path changes its contents between three consecutive strict opens in one process " +
+			"entry sets {name: right|wrong|none|hashed} x {ip: right|wrong|none|hashed} on both transports (connect iff the entry for the configured NAME matches). Plus 66 retry sequences per repetition on ONE driver object: Open #1 under a configuration that must fail inside Transport.Open (strict + no / missing / half-written known-hosts " +
+			"file; missing / half-written / unauthorised key file), optional Transport.Close, optional repair, Open #2 judged as a fresh object would be under the files at that moment (server accepts key and " +
+			"password, so a silent fallback to the password is visible). Plus 32 sequences per repetition in which ONE known-hosts path changes its contents between three consecutive strict opens in one process " +
 			"(has>other>has, has>empty>has, empty>has>empty, other>has>other; both transports; fresh Transport object per open and one re-used object; transport level, key auth): " +
 			"every open must be decided by the file's contents at that moment. Non-trivial = strict host-key checking is on in the cell. Distinct = distinct descriptor.",
 		Assumptions: []string{
@@ -1126,6 +1173,9 @@ func init() {
 			}
 			if c.Kind == "decoy" {
 				return runDecoy(c)
+			}
+			if c.Kind == "retry" {
+				return runRetry(c)
 			}
 			if c.Kind == "argv" {
 				return runArgv(c)
